@@ -5,7 +5,8 @@
        results_no_where, results_complete                  shape of the result set            [C02]
    T3  inline_seval, accepted_refines_spec,
        results_refine_spec                                  expansion by substitution implements
-                                                            call-by-binding                    [C01 C13]
+                                                            call-by-binding (formals bound to
+                                                            entities or to literal values)     [C01 C13]
    T4  spec_and, spec_or, spec_not, spec_paren, spec_equiv,
        De Morgan, double negation, spec_or_needs_total      connectives as set operations      [C12]
    T5  emit_inline, expanded_condition_inline               text-level expansion = AST-level expansion *)
@@ -291,7 +292,7 @@ Definition connective (e : expr) : bool :=
   end.
 
 Lemma seval_atom d decls active env0 env e :
-  connective e = false -> seval d decls active env0 env e = eval env (of_expr e).
+  connective e = false -> seval d decls active env0 env e = atom_eval env0 env e.
 Proof.
   destruct d; destruct e as [v|vs|x ms|f args|a|[|] a|[| | | | | | | | | | | |] a b];
     cbn [connective]; intros H; try discriminate H; reflexivity.
@@ -331,12 +332,15 @@ Proof. reflexivity. Qed.
 Lemma seval_ECall_S d decls active env0 env f args :
   seval (S d) decls active env0 env (ECall f args) =
   if is_active (call_key f (length args)) active then OutOfFragment else
-  match find_decl decls f (length args), all_some (List.map (arg_entity env) args) with
-  | Some decl, Some ents =>
+  match find_decl decls f (length args), all_some (List.map (arg_bind env0 env) args) with
+  | Some decl, Some bs =>
       seval d decls (call_key f (length args) :: active) env0
-            (combine (List.map snd (pd_params decl)) ents ++ env0) (pd_body decl)
+            (combine (List.map snd (pd_params decl)) bs) (pd_body decl)
   | _, _ => OutOfFragment
   end.
+Proof. reflexivity. Qed.
+(* at top level (no formals) an atom is evaluated as it stands *)
+Lemma atom_eval_nil env0 e : atom_eval env0 [] e = eval env0 (of_expr e).
 Proof. reflexivity. Qed.
 
 (* ====================================================================================== *)
@@ -370,14 +374,16 @@ Proof.
 Qed.
 
 (* the implementation's substitution [sub] over the FROM environment [env0] represents the
-   specification environment [env] *)
-Definition R (env0 : tenv) (sub : subst) (env : tenv) : Prop :=
+   formals [fe] of the specification: the same names are bound, and the substituted expression
+   evaluates (over env0) to what the formal is bound to -- the entity's accessor table, or the
+   value of the literal *)
+Definition R (env0 : tenv) (sub : subst) (fe : fenv) : Prop :=
   forall x,
     (forall a, lookup x sub = Some a ->
-               exists k n, lookup x env = Some (k, n) /\ eval env0 a = Val (VEnv k n))
-    /\ (lookup x sub = None -> lookup x env = lookup x env0).
+               exists b, lookup x fe = Some b /\ eval env0 a = bind_res b)
+    /\ (lookup x sub = None -> lookup x fe = None).
 
-Lemma R_nil env0 : R env0 [] env0.
+Lemma R_nil env0 : R env0 [] [].
 Proof. intros x. split; [intros a H; discriminate H|reflexivity]. Qed.
 
 (* ---------- lookup ---------- *)
@@ -444,57 +450,144 @@ Proof.
   - rewrite !chain_of_MCall. apply IH. apply eval_XCall_member_congr; [exact H|apply map_nil_iff].
 Qed.
 
-Lemma eval_head env0 sub env x : R env0 sub env -> eval env0 (head_of sub x) = eval env (XVar x).
+(* ---------- names ---------- *)
+(* the value of a name inside a body, in the specification: what [flookup] finds *)
+Definition name_res (env0 : tenv) (fe : fenv) (x : bytes) : res :=
+  match flookup env0 fe x with Some b => bind_res b | None => CompErr end.
+
+Lemma lookup_ents_none fe x : lookup x fe = None -> lookup x (ents fe) = None.
 Proof.
-  intros HR. destruct (HR x) as [HS HN]. unfold head_of. cbn [eval].
-  destruct (lookup x sub) as [a|].
-  - destruct (HS a eq_refl) as [k [n [Hl He]]]. now rewrite Hl, He.
-  - rewrite (HN eq_refl). reflexivity.
+  induction fe as [|[k [kd n|v]] fe IH]; cbn [ents]; [reflexivity| |];
+    rewrite ?lookup_cons; destruct (bytes_eqb x k); try discriminate; exact IH.
 Qed.
 
-(* atoms: the substituted expression over the FROM environment has the value of the plain
-   expression in the specification environment *)
+Lemma lookup_ents_some fe x kd n : lookup x fe = Some (BEnt kd n) -> lookup x (ents fe) = Some (kd, n).
+Proof.
+  induction fe as [|[k [kd' n'|v]] fe IH]; cbn [ents]; rewrite ?lookup_nil, ?lookup_cons;
+    [discriminate| |]; destruct (bytes_eqb x k); try exact IH.
+  - intros [= -> ->]. reflexivity.
+  - discriminate.
+Qed.
+
+Lemma lookup_vsub fe x :
+  lookup x (vsub fe)
+  = option_map (fun b => match b with BVal v => XParen (XVal v) | BEnt _ _ => XVar x end) (lookup x fe).
+Proof.
+  induction fe as [|[k b] fe IH]; [reflexivity|].
+  cbn [vsub map]. fold (vsub fe). rewrite !lookup_cons.
+  destruct (bytes_eqb x k) eqn:E; [|exact IH].
+  apply bytes_eqb_true in E. subst k. reflexivity.
+Qed.
+
+(* [atom_eval] reads a name as [flookup] does: the first formal of that name decides, then the
+   FROM aliases *)
+Lemma spec_head env0 fe x :
+  eval (ents fe ++ env0) (head_of (vsub fe) x) = name_res env0 fe x.
+Proof.
+  unfold name_res, flookup, head_of. rewrite lookup_vsub.
+  destruct (lookup x fe) as [[kd n|v]|] eqn:E; cbn [option_map eval bind_res].
+  - now rewrite lookup_app, (lookup_ents_some fe x kd n E).
+  - reflexivity.
+  - rewrite lookup_app, (lookup_ents_none fe x E).
+    destruct (lookup x env0) as [[kd n]|]; reflexivity.
+Qed.
+
+Lemma eval_head env0 sub fe x : R env0 sub fe -> eval env0 (head_of sub x) = name_res env0 fe x.
+Proof.
+  intros HR. destruct (HR x) as [HS HN]. unfold head_of, name_res, flookup.
+  destruct (lookup x sub) as [a|].
+  - destruct (HS a eq_refl) as [b [-> He]]. exact He.
+  - rewrite (HN eq_refl). cbn [eval]. destruct (lookup x env0) as [[k n]|]; reflexivity.
+Qed.
+
+(* atoms: the substituted expression over the FROM environment has the value the specification
+   gives the plain expression under the bindings of the formals *)
 Lemma inline_atom d decls active env0 sub env e :
   call_free e = true -> R env0 sub env ->
-  eval env0 (inline d decls active sub e) = eval env (of_expr e).
+  eval env0 (inline d decls active sub e) = atom_eval env0 env e.
 Proof.
-  intros Hcf HR. unfold of_expr.
+  intros Hcf HR. unfold atom_eval.
   induction e as [v|vs|x ms|f args|a IHa|o a IHa|o a IHa b IHb]; cbn [call_free] in Hcf.
   - now rewrite !inline_EVal.
   - now rewrite !inline_EList.
-  - rewrite !inline_EChain. apply eval_chain_congr. unfold head_of at 2. rewrite lookup_nil.
-    now apply eval_head.
+  - rewrite !inline_EChain. apply eval_chain_congr.
+    rewrite spec_head. now apply eval_head.
   - discriminate Hcf.
   - rewrite !inline_EParen. cbn [eval]. now apply IHa.
   - rewrite !inline_EUn. apply eval_XUn_congr. now apply IHa.
   - apply andb_prop in Hcf as [Ha Hb]. rewrite !inline_EBin. apply eval_XBin_congr; auto.
 Qed.
 
-(* the arguments of a call that denote entities *)
-Lemma args_entities d decls active env0 sub env : R env0 sub env -> forall args ents,
-  all_some (List.map (arg_entity env) args) = Some ents ->
-  Forall2 (fun a ent => eval env0 a = Val (VEnv (fst ent) (snd ent)))
-          (List.map XParen (List.map (inline d decls active sub) args)) ents.
+(* conservative over the entity-only reading: when every formal is bound to an entity, an atom is
+   the plain expression evaluated in the FROM environment extended by the formals *)
+Definition all_entities (fe : fenv) : bool :=
+  forallb (fun '(_, b) => match b with BEnt _ _ => true | BVal _ => false end) fe.
+
+Lemma lookup_in {V} x (m : list (bytes * V)) v : lookup x m = Some v -> exists k, In (k, v) m.
 Proof.
-  intros HR. induction args as [|a args IH]; intros ents H; cbn [map all_some] in H |- *.
-  - injection H as <-. constructor.
-  - destruct (arg_entity env a) as [ent|] eqn:Ea; [|discriminate H].
-    destruct (all_some (map (arg_entity env) args)) as [ents'|]; [|discriminate H].
-    cbn [option_map] in H. injection H as <-. constructor; [|now apply IH].
-    destruct a as [v|vs|x [|m ms]|f args'|a'|o a'|o a' b']; try discriminate Ea.
-    cbn [arg_entity] in Ea. rewrite eval_XParen, inline_EChain, chain_of_nil.
-    rewrite (eval_head env0 sub env x HR). cbn [eval]. rewrite Ea. now destruct ent.
+  induction m as [|[k w] m IH]; rewrite ?lookup_nil, ?lookup_cons; [discriminate|].
+  destruct (bytes_eqb x k).
+  - intros [= ->]. exists k. now left.
+  - intros H. destruct (IH H) as [k' Hk']. exists k'. now right.
 Qed.
 
-Lemma R_call env0 (params : list bytes) (xs : list xexpr) (ents : list (bytes * node)) :
-  Forall2 (fun a ent => eval env0 a = Val (VEnv (fst ent) (snd ent))) xs ents ->
-  R env0 (combine params xs) (combine params ents ++ env0).
+Lemma atom_eval_entities env0 fe e :
+  call_free e = true -> all_entities fe = true ->
+  atom_eval env0 fe e = eval (ents fe ++ env0) (of_expr e).
+Proof.
+  intros Hcf Hfe. unfold atom_eval, of_expr.
+  induction e as [v|vs|x ms|f args|a IHa|o a IHa|o a IHa b IHb]; cbn [call_free] in Hcf.
+  - now rewrite !inline_EVal.
+  - now rewrite !inline_EList.
+  - rewrite !inline_EChain. apply eval_chain_congr. rewrite spec_head.
+    unfold head_of at 1. rewrite lookup_nil. unfold name_res, flookup. cbn [eval]. rewrite lookup_app.
+    destruct (lookup x fe) as [[kd n|v]|] eqn:E.
+    + now rewrite (lookup_ents_some fe x kd n E).
+    + apply lookup_in in E as [k Hk]. unfold all_entities in Hfe. rewrite forallb_forall in Hfe.
+      discriminate (Hfe _ Hk).
+    + rewrite (lookup_ents_none fe x E). destruct (lookup x env0) as [[kd n]|]; reflexivity.
+  - discriminate Hcf.
+  - rewrite !inline_EParen. cbn [eval]. now apply IHa.
+  - rewrite !inline_EUn. apply eval_XUn_congr. now apply IHa.
+  - apply andb_prop in Hcf as [Ha Hb]. rewrite !inline_EBin. apply eval_XBin_congr; auto.
+Qed.
+
+(* what an argument denotes is what its substituted text evaluates to *)
+Lemma arg_bind_eval d decls active env0 sub env : R env0 sub env -> forall a b,
+  arg_bind env0 env a = Some b -> eval env0 (inline d decls active sub a) = bind_res b.
+Proof.
+  intros HR.
+  induction a as [v|vs|x ms|f args|a IHa|o a IHa|o a IHa b' IHb]; intros b Ea; cbn [arg_bind] in Ea;
+    try discriminate Ea.
+  - injection Ea as <-. now rewrite inline_EVal.
+  - destruct ms as [|m ms]; [|discriminate Ea].
+    rewrite inline_EChain, chain_of_nil, (eval_head env0 sub env x HR).
+    unfold name_res. now rewrite Ea.
+  - rewrite inline_EParen, eval_XParen. now apply IHa.
+Qed.
+
+Lemma args_binds d decls active env0 sub env : R env0 sub env -> forall args bs,
+  all_some (List.map (arg_bind env0 env) args) = Some bs ->
+  Forall2 (fun a b => eval env0 a = bind_res b)
+          (List.map XParen (List.map (inline d decls active sub) args)) bs.
+Proof.
+  intros HR. induction args as [|a args IH]; intros bs H; cbn [map all_some] in H |- *.
+  - injection H as <-. constructor.
+  - destruct (arg_bind env0 env a) as [b|] eqn:Ea; [|discriminate H].
+    destruct (all_some (map (arg_bind env0 env) args)) as [bs'|]; [|discriminate H].
+    cbn [option_map] in H. injection H as <-. constructor; [|now apply IH].
+    rewrite eval_XParen. now apply arg_bind_eval with (env := env).
+Qed.
+
+Lemma R_call env0 (params : list bytes) (xs : list xexpr) (bs : list bind) :
+  Forall2 (fun a b => eval env0 a = bind_res b) xs bs ->
+  R env0 (combine params xs) (combine params bs).
 Proof.
   intros HF x. pose proof (lookup_combine2 _ _ _ HF params x) as H.
-  rewrite lookup_app. split.
-  - intros a Ha. rewrite Ha in H. destruct (lookup x (combine params ents)) as [[k n]|]; [|destruct H].
-    exists k, n. split; [reflexivity|exact H].
-  - intros Hn. rewrite Hn in H. destruct (lookup x (combine params ents)); [destruct H|reflexivity].
+  split.
+  - intros a Ha. rewrite Ha in H. destruct (lookup x (combine params bs)) as [b|]; [|destruct H].
+    exists b. split; [reflexivity|exact H].
+  - intros Hn. rewrite Hn in H. destruct (lookup x (combine params bs)); [destruct H|reflexivity].
 Qed.
 
 Lemma find_decl_in decls f n decl : find_decl decls f n = Some decl -> In decl decls.
@@ -520,10 +613,10 @@ Proof.
     rewrite seval_ECall_S in Hr |- *. rewrite inline_ECall_S.
     destruct (is_active (call_key f (length args)) active); [now destruct Hr|].
     destruct (find_decl decls f (length args)) as [decl|] eqn:Ef; [|now destruct Hr].
-    destruct (all_some (map (arg_entity env) args)) as [ents|] eqn:Ea; [|now destruct Hr].
+    destruct (all_some (map (arg_bind env0 env) args)) as [bs|] eqn:Ea; [|now destruct Hr].
     rewrite eval_XParen. apply (IHd d' eq_refl).
     + apply Hdecls. eapply find_decl_in, Ef.
-    + apply R_call. now apply args_entities with (env := env).
+    + apply R_call. now apply args_binds with (env := env).
     + exact Hr.
   - rewrite seval_EParen in Hr |- *. rewrite inline_EParen, eval_XParen. now apply IHa.
   - destruct o.
@@ -573,7 +666,7 @@ Definition wf_query (q : query) : bool :=
 
 (* the specification value of a condition on a tuple *)
 Definition sv (q : query) (t : list node) (e : expr) : res :=
-  seval (fuel_of (q_preds q)) (q_preds q) [] (tuple_env q t) (tuple_env q t) e.
+  seval (fuel_of (q_preds q)) (q_preds q) [] (tuple_env q t) [] e.
 
 (* the expanded condition passes the static checker on this tuple (no compile error, in fragment) *)
 Definition static_ok (q : query) (t : list node) : Prop :=
@@ -585,7 +678,7 @@ Lemma condition_eval_sv q t e :
 Proof.
   unfold wf_query. intros Hwf Hw Hr. rewrite Hw in Hwf. apply andb_prop in Hwf as [Hsk Hd].
   rewrite forallb_forall in Hd.
-  apply (inline_seval (fuel_of (q_preds q)) (q_preds q) [] (tuple_env q t) Hd e [] (tuple_env q t) Hsk (R_nil _)
+  apply (inline_seval (fuel_of (q_preds q)) (q_preds q) [] (tuple_env q t) Hd e [] [] Hsk (R_nil _)
            (sv q t e) eq_refl Hr).
 Qed.
 
@@ -645,7 +738,7 @@ Lemma sv_and q t A B :
   sv q t (EBin BAnd A B) = Val (VB true) <-> sv q t A = Val (VB true) /\ sv q t B = Val (VB true).
 Proof.
   unfold sv. rewrite seval_BAnd.
-  destruct (seval (fuel_of (q_preds q)) (q_preds q) [] (tuple_env q t) (tuple_env q t) A)
+  destruct (seval (fuel_of (q_preds q)) (q_preds q) [] (tuple_env q t) [] A)
     as [[s|z|[|]| |l|p r n|p n|tag]| | |]; cbn [wrong_operand plain];
     split; try (intros [H1 H2]); try intros H; try discriminate; auto.
 Qed.
@@ -655,7 +748,7 @@ Lemma sv_or q t A B :
   sv q t A = Val (VB true) \/ (sv q t A = Val (VB false) /\ sv q t B = Val (VB true)).
 Proof.
   unfold sv. rewrite seval_BOr.
-  destruct (seval (fuel_of (q_preds q)) (q_preds q) [] (tuple_env q t) (tuple_env q t) A)
+  destruct (seval (fuel_of (q_preds q)) (q_preds q) [] (tuple_env q t) [] A)
     as [[s|z|[|]| |l|p r n|p n|tag]| | |]; cbn [wrong_operand plain];
     split; try (intros [H|[H1 H2]]); try intros H; try discriminate; auto.
 Qed.
@@ -663,7 +756,7 @@ Qed.
 Lemma sv_not q t A : sv q t (EUn UNot A) = Val (VB true) <-> sv q t A = Val (VB false).
 Proof.
   unfold sv. rewrite seval_UNot.
-  destruct (seval (fuel_of (q_preds q)) (q_preds q) [] (tuple_env q t) (tuple_env q t) A)
+  destruct (seval (fuel_of (q_preds q)) (q_preds q) [] (tuple_env q t) [] A)
     as [[s|z|[|]| |l|p r n|p n|tag]| | |]; cbn [wrong_operand plain negb];
     split; intros H; try discriminate; auto.
 Qed.
@@ -760,7 +853,7 @@ Print Assumptions spec_paren.
 
 (* ---------- De Morgan, double negation, commutativity ---------- *)
 Ltac sv_cases q t A :=
-  destruct (seval (fuel_of (q_preds q)) (q_preds q) [] (tuple_env q t) (tuple_env q t) A)
+  destruct (seval (fuel_of (q_preds q)) (q_preds q) [] (tuple_env q t) [] A)
     as [[?|?|[|]| |?|? ? ?|? ?|?]| | |]; cbn [wrong_operand plain negb]; try reflexivity.
 
 (* pointwise, and unconditional: both sides evaluate A, then B, and fail alike *)
@@ -1212,11 +1305,11 @@ Module Examples.
   Example R_hyp :
     let env0 := tuple_env q [md "foo"; cd "C"] in
     R env0 [("k", XParen (XVar "cd")); ("m", XParen (XVar "md"))]
-      ([("k", ("class_declaration", cd "C")); ("m", ("method_declaration", md "foo"))] ++ env0).
+      [("k", BEnt "class_declaration" (cd "C")); ("m", BEnt "method_declaration" (md "foo"))].
   Proof.
     intros env0.
     apply (R_call env0 ["k"; "m"] [XParen (XVar "cd"); XParen (XVar "md")]
-             [("class_declaration", cd "C"); ("method_declaration", md "foo")]).
+             [BEnt "class_declaration" (cd "C"); BEnt "method_declaration" (md "foo")]).
     repeat constructor.
   Qed.
   (* the static-checker hypothesis is not gratuitous: a compile-time type error in a branch the
@@ -1252,6 +1345,149 @@ Module Examples.
     intros t Ht. vm_compute in Ht.
     destruct Ht as [<-|[<-|[<-|[<-|[]]]]]; vm_compute; reflexivity.
   Qed.
+
+  (* T3, value parameters: predicates declared with a value parameter, called with literals *)
+  Module ValueParams.
+    (* predicate hasName(method_declaration x, string s) { x.getName() == s } *)
+    Definition hasName : pred_decl :=
+      {| pd_name := "hasName";
+         pd_params := [("method_declaration", "x"); ("string", "s")];
+         pd_body := EBin BEq (EChain "x" [MCall "getName" []]) (EChain "s" []) |}.
+    (* predicate first(method_declaration a, string t) { hasName(a, t) } : passes its value on *)
+    Definition first : pred_decl :=
+      {| pd_name := "first";
+         pd_params := [("method_declaration", "a"); ("string", "t")];
+         pd_body := ECall "hasName" [EChain "a" []; EChain "t" []] |}.
+    Definition alpha : expr := EVal (VStr """alpha""").
+    Definition delta : expr := EVal (VStr """delta""").
+    (* FROM method_declaration AS m WHERE first(m, "alpha") || first(m, ("delta")) SELECT m *)
+    Definition qv : query :=
+      {| q_preds := [hasName; first];
+         q_from := [("method_declaration", "m")];
+         q_where := Some (EBin BOr (ECall "first" [EChain "m" []; alpha])
+                            (ECall "first" [EChain "m" []; EParen delta]));
+         q_select := [SelVar "m"] |}.
+    Definition g2 : list node := [md "alpha"; md "beta"].
+    Definition g3 : list node := [md "alpha"; md "beta"; md "delta"].
+
+    Example wf_v : wf_query qv = true.
+    Proof. vm_compute. reflexivity. Qed.
+    (* (a) the specification gives the query a meaning on every candidate, the hypotheses of the
+       refinement theorem hold, and the result is a non-empty strict subset of the candidates *)
+    Example refine_hyp_v2 :
+      forall t, In t (candidates qv g2) -> spec_accepted qv t <> Unknown /\ static_ok qv t.
+    Proof. apply refine_check_ok. vm_compute. reflexivity. Qed.
+    Example refine_hyp_v3 :
+      forall t, In t (candidates qv g3) -> spec_accepted qv t <> Unknown /\ static_ok qv t.
+    Proof. apply refine_check_ok. vm_compute. reflexivity. Qed.
+    Example refine_v2 : results qv g2 = spec_results qv g2.
+    Proof. apply results_refine_spec; [exact wf_v|exact refine_hyp_v2]. Qed.
+    Example refine_v3 : results qv g3 = spec_results qv g3.
+    Proof. apply results_refine_spec; [exact wf_v|exact refine_hyp_v3]. Qed.
+    Example spec_results_v2 :
+      candidates qv g2 = [[md "alpha"]; [md "beta"]] /\
+      spec_results qv g2 = [[md "alpha"]] /\ results qv g2 = [[md "alpha"]].
+    Proof. vm_compute. auto. Qed.
+    Example spec_results_v3 :
+      candidates qv g3 = [[md "alpha"]; [md "beta"]; [md "delta"]] /\
+      spec_results qv g3 = [[md "alpha"]; [md "delta"]] /\ results qv g3 = [[md "alpha"]; [md "delta"]].
+    Proof. vm_compute. auto. Qed.
+    Example in_fragment_v : in_fragment qv g3 = true.
+    Proof. vm_compute. reflexivity. Qed.
+    Example expanded_v :
+      expanded_condition qv =
+      "( ( ( ( m ) ) . getName ( ) == ( ( ""alpha"" ) ) ) ) || ( ( ( ( m ) ) . getName ( ) == ( ( ( ""delta"" ) ) ) ) )".
+    Proof. vm_compute. reflexivity. Qed.
+
+    (* (b) the text of the inner call, hasName(a, t), is the same in both expansions of first;
+       its value depends on what t is bound to (a memo keyed by the call text would be wrong) *)
+    Definition inner : expr := ECall "hasName" [EChain "a" []; EChain "t" []].
+    Definition env_m : tenv := tuple_env qv [md "alpha"].
+    Definition fe (v : bytes) : fenv :=
+      [("a", BEnt "method_declaration" (md "alpha")); ("t", BVal (VStr v))].
+    Example same_call_two_bindings :
+      seval 2 (q_preds qv) ["first/2"] env_m (fe """alpha""") inner = Val (VB true) /\
+      seval 2 (q_preds qv) ["first/2"] env_m (fe """delta""") inner = Val (VB false).
+    Proof. vm_compute. auto. Qed.
+    (* ... and so does the implementation's expansion under the two related substitutions *)
+    Definition sb (v : bytes) : subst :=
+      [("a", XParen (XVar "m")); ("t", XParen (XVal (VStr v)))].
+    Example R_hyp_v v : R env_m (sb v) (fe v).
+    Proof.
+      apply (R_call env_m ["a"; "t"] [XParen (XVar "m"); XParen (XVal (VStr v))]
+               [BEnt "method_declaration" (md "alpha"); BVal (VStr v)]).
+      repeat constructor.
+    Qed.
+    Example same_call_two_substitutions :
+      eval env_m (inline 2 (q_preds qv) ["first/2"] (sb """alpha""") inner) = Val (VB true) /\
+      eval env_m (inline 2 (q_preds qv) ["first/2"] (sb """delta""") inner) = Val (VB false).
+    Proof. vm_compute. auto. Qed.
+
+    (* shadowing: a value formal spelled like the FROM alias, and like another predicate's formal.
+       predicate is(method_declaration x, string m) { x.getName() == m }
+       FROM method_declaration AS m WHERE is(m, "beta") : inside the body m is the string *)
+    Definition is_ : pred_decl :=
+      {| pd_name := "is";
+         pd_params := [("method_declaration", "x"); ("string", "m")];
+         pd_body := EBin BEq (EChain "x" [MCall "getName" []]) (EChain "m" []) |}.
+    Definition q_shadow : query :=
+      {| q_preds := [is_];
+         q_from := [("method_declaration", "m")];
+         q_where := Some (ECall "is" [EChain "m" []; EVal (VStr """beta""")]);
+         q_select := [SelVar "m"] |}.
+    Example shadow_ex :
+      wf_query q_shadow = true /\ refine_check q_shadow g3 = true /\
+      spec_results q_shadow g3 = [[md "beta"]] /\ results q_shadow g3 = [[md "beta"]].
+    Proof. vm_compute. auto. Qed.
+    (* two formals of the same name: the first decides, in the specification as in the expansion.
+       predicate dup(method_declaration x, string x) { x.getName() == "beta" } *)
+    Definition dup : pred_decl :=
+      {| pd_name := "dup";
+         pd_params := [("method_declaration", "x"); ("string", "x")];
+         pd_body := EBin BEq (EChain "x" [MCall "getName" []]) (EVal (VStr """beta""")) |}.
+    Definition q_dup : query :=
+      {| q_preds := [dup];
+         q_from := [("method_declaration", "m")];
+         q_where := Some (ECall "dup" [EChain "m" []; EVal (VStr """zeta""")]);
+         q_select := [SelVar "m"] |}.
+    Example dup_ex :
+      wf_query q_dup = true /\ refine_check q_dup g3 = true /\
+      spec_results q_dup g3 = [[md "beta"]] /\ results q_dup g3 = [[md "beta"]].
+    Proof. vm_compute. auto. Qed.
+
+    (* a value formal in alias position (s.getName()), or a number compared with a name: defined
+       in the specification (outside the fragment, resp. false), same as the expansion *)
+    Definition q_num : query :=
+      {| q_preds := [hasName];
+         q_from := [("method_declaration", "m")];
+         q_where := Some (ECall "hasName" [EChain "m" []; EVal (VNum "7")]);
+         q_select := [SelVar "m"] |}.
+    Example num_ex :
+      wf_query q_num = true /\ refine_check q_num g3 = true /\
+      spec_results q_num g3 = [] /\ results q_num g3 = [].
+    Proof. vm_compute. auto. Qed.
+
+    (* the static-checker hypothesis matters more with value parameters: substitution makes the
+       literal's type visible to expr-lang's checker inside the body, binding does not.
+       predicate low(method_declaration x, string s) { x.getName() == "alpha" || s < 1 }
+       low(m, "k"): the specification accepts alpha (|| short-circuits), the implementation
+       rejects every tuple with a compile error ("k" < 1) *)
+    Definition low : pred_decl :=
+      {| pd_name := "low";
+         pd_params := [("method_declaration", "x"); ("string", "s")];
+         pd_body := EBin BOr (EBin BEq (EChain "x" [MCall "getName" []]) alpha)
+                      (EBin BLt (EChain "s" []) (EVal (VNum "1"))) |}.
+    Definition q_low : query :=
+      {| q_preds := [low];
+         q_from := [("method_declaration", "m")];
+         q_where := Some (ECall "low" [EChain "m" []; EVal (VStr """k""")]);
+         q_select := [SelVar "m"] |}.
+    Example static_ok_needed_value :
+      wf_query q_low = true /\
+      spec_accepted q_low [md "alpha"] = Accept /\ accepted q_low [md "alpha"] = Reject /\
+      spec_results q_low g3 = [[md "alpha"]] /\ results q_low g3 = [].
+    Proof. vm_compute. auto. Qed.
+  End ValueParams.
 
   (* T5 *)
   Example expanded_ex :
@@ -1294,3 +1530,6 @@ Print Assumptions refine_check_ok.
 Print Assumptions total_check_ok.
 Print Assumptions Examples.refine.
 Print Assumptions Examples.static_ok_needed.
+Print Assumptions atom_eval_entities.
+Print Assumptions Examples.ValueParams.refine_v3.
+Print Assumptions Examples.ValueParams.same_call_two_bindings.
